@@ -237,9 +237,11 @@ def StopReason {β} (map_ : List Int) (ix : List Int) (values : List β) (mv : I
      (r.need = false ∧ k - mv < b ∧ (r.rv.length : Int) + (wentry ix values (k - mv).toNat).length > capV))
 
 /-- what a partial call has produced when it has consumed the map positions `[sm, r.sm)` -/
-def PartialPost {β} (esL : List (List β)) (sm : Nat) (accum : Int) (r : IP β) : Prop :=
+def PartialPost {β} (esL : List (List β)) (sm : Nat) (accum : Int) (capV : Nat) (r : IP β) : Prop :=
   r.ri = runSums accum (slice esL sm r.sm) ∧ r.rv = (slice esL sm r.sm).flatten ∧
-  r.accum = accum + sumLen (slice esL sm r.sm)
+  r.accum = accum + sumLen (slice esL sm r.sm) ∧
+  -- every entry copied so far fitted into the value buffer
+  ∀ x ∈ slice esL sm r.sm, x.length ≤ capV
 
 theorem indexedPartial_spec {β} (map_ : List Int) (sE : Nat) (ix : List Int) (a b : Nat) (values vals : List β)
     (mv : Int) (capI capV : Nat) (inv : Int) (sm : Nat) (accum : Int) (esL : List (List β)) (A B : Int)
@@ -251,16 +253,16 @@ theorem indexedPartial_spec {β} (map_ : List Int) (sE : Nat) (ix : List Int) (a
     (hes : ∀ (p : Nat) (k : Int), sm ≤ p → p < sE → map_[p]? = some k →
       esL[p]? = some (if k = inv then [] else wentry ix values (k - mv).toNat)) :
     ∃ r : IP β, indexedPartial map_ sE ix a b vals mv capI capV inv sm [] [] accum = .ok r ∧
-      sm ≤ r.sm ∧ r.sm ≤ sE ∧ PartialPost esL sm accum r ∧
+      sm ≤ r.sm ∧ r.sm ≤ sE ∧ PartialPost esL sm accum capV r ∧
       (r.sm < sE → StopReason map_ ix values mv b capV inv r) ∧ (r.sm = sE → r.need = false) := by
   have hgA : getE ix a "indices[i_start]" = .ok A := by simp [getE, hA]
   let par : IPar β := ⟨map_, sE, ix, b, vals, mv, capI, capV, inv, A⟩
   have h := whileE_rule (ipGuard par) (ipBody par)
-    (fun t => sm ≤ t.sm ∧ t.sm ≤ sE ∧ PartialPost esL sm accum t ∧ (t.brk = false → t.need = false) ∧
+    (fun t => sm ≤ t.sm ∧ t.sm ≤ sE ∧ PartialPost esL sm accum capV t ∧ (t.brk = false → t.need = false) ∧
       (t.brk = true → t.sm < sE ∧ StopReason map_ ix values mv b capV inv t))
     (fun t => (sE - t.sm) + (if t.brk then 0 else 1))
     (by
-      intro t ⟨h1, h2, ⟨hri, hrv, hacc⟩, hnb, _⟩ hg
+      intro t ⟨h1, h2, ⟨hri, hrv, hacc, hfit⟩, hnb, _⟩ hg
       simp only [ipGuard, Bool.and_eq_true, decide_eq_true_eq, Bool.not_eq_true'] at hg
       obtain ⟨hlt, hbrk⟩ := hg
       have hlt : t.sm < sE := hlt
@@ -276,10 +278,15 @@ theorem indexedPartial_spec {β} (map_ : List Int) (sE : Nat) (ix : List Int) (a
         have hsl := slice_snoc esL sm t.sm [] h1 hesp'
         refine ⟨{ t with sm := t.sm + 1, ri := t.ri ++ [t.accum] }, ?_, ⟨by simp only []; omega, by simp only []; omega, ?_, ?_, ?_⟩, ?_⟩
         · simp only [ipBody, par, hgm, hk, beq_self_eq_true, if_true, hrilen]
-        · refine ⟨?_, ?_, ?_⟩
+        · refine ⟨?_, ?_, ?_, ?_⟩
           · simp only [hsl, runSums_append, hri, runSums, hacc]; simp
           · simp only [hsl, List.flatten_append, hrv]; simp
           · simp only [hsl, sumLen_append, hacc, sumLen]; simp
+          · intro x hx
+            simp only [hsl, List.mem_append, List.mem_singleton] at hx
+            rcases hx with hx | hx
+            · exact hfit x hx
+            · subst hx; simp
         · intro _; exact hneed
         · intro hb'; simp only [hbrk] at hb'; exact absurd hb' (by simp)
         · simp only [hbrk]; simp; omega
@@ -288,7 +295,7 @@ theorem indexedPartial_spec {β} (map_ : List Int) (sE : Nat) (ix : List Int) (a
         have hesp' : esL[t.sm]? = some (wentry ix values (map_[t.sm] - mv).toNat) := by simpa [hk] using hesp
         by_cases hib : (map_[t.sm] - mv) ≥ (b : Int)
         · -- the entry lies beyond the current value sub-chunk
-          refine ⟨{ t with need := true, brk := true }, ?_, ⟨h1, h2, ⟨hri, hrv, hacc⟩, ?_, ?_⟩, ?_⟩
+          refine ⟨{ t with need := true, brk := true }, ?_, ⟨h1, h2, ⟨hri, hrv, hacc, hfit⟩, ?_, ?_⟩, ?_⟩
           · simp only [ipBody, par, hgm, hkb, hib, if_true]; simp
           · intro hb'; simp at hb'
           · intro _; exact ⟨hlt, map_[t.sm], hgm, hk, Or.inl ⟨rfl, hib⟩⟩
@@ -317,7 +324,7 @@ theorem indexedPartial_spec {β} (map_ : List Int) (sE : Nat) (ix : List Int) (a
             rw [hwe, slice_length_le _ _ _ (by omega)]; omega
           by_cases hfull : (t.rv.length : Int) + (Y - A) - (X - A) > (capV : Int)
           · -- the value buffer cannot take the entry
-            refine ⟨{ t with brk := true }, ?_, ⟨h1, h2, ⟨hri, hrv, hacc⟩, ?_, ?_⟩, ?_⟩
+            refine ⟨{ t with brk := true }, ?_, ⟨h1, h2, ⟨hri, hrv, hacc, hfit⟩, ?_, ?_⟩, ?_⟩
             · simp only [ipBody, par, hgm, hkb, hidef, hib, if_false, hgetX, hgetY, hfull, if_true]; simp
             · intro hb'; simp at hb'
             · intro _
@@ -340,16 +347,22 @@ theorem indexedPartial_spec {β} (map_ : List Int) (sE : Nat) (ix : List Int) (a
               ?_, ⟨by simp only []; omega, by simp only []; omega, ?_, ?_, ?_⟩, ?_⟩
             · simp only [ipBody, par, hgm, hkb, hidef, hib, if_false, hgetX, hgetY, hfull, hread, hrilen, if_true,
                 Bool.false_eq_true]
-            · refine ⟨?_, ?_, ?_⟩
+            · refine ⟨?_, ?_, ?_, ?_⟩
               · simp only [hsl, runSums_append, hri, runSums, hacc, hwl]
                 congr 2; omega
               · simp only [hsl, List.flatten_append, hrv]; simp
               · simp only [hsl, sumLen_append, hacc, sumLen, hwl]; omega
+              · intro x hx
+                simp only [hsl, List.mem_append, List.mem_singleton] at hx
+                rcases hx with hx | hx
+                · exact hfit x hx
+                · subst hx; omega
             · intro _; exact hneed
             · intro hb'; simp only [hbrk] at hb'; exact absurd hb' (by simp)
             · simp only [hbrk]; simp; omega)
     (sE - sm + 1) ⟨sm, [], [], accum, false, false⟩
-    ⟨Nat.le_refl _, hsm, ⟨by simp [slice_self, runSums], by simp [slice_self], by simp [slice_self, sumLen]⟩,
+    ⟨Nat.le_refl _, hsm, ⟨by simp [slice_self, runSums], by simp [slice_self], by simp [slice_self, sumLen],
+      by simp [slice_self]⟩,
       fun _ => rfl, fun h => by simp at h⟩
     (by simp)
   obtain ⟨r, hrun, ⟨h1, h2, hpost, hnb, hb'⟩, hg⟩ := h
